@@ -111,6 +111,10 @@ func (qt *quotaTopology) validateQuotaTopology(oldQuotaInfo, newQuotaInfo *Quota
 		return err
 	}
 
+	if err := qt.checkParentNotDescendant(newQuotaInfo.Name, newQuotaInfo.ParentName); err != nil {
+		return err
+	}
+
 	if err := qt.checkSubAndParentGroupQuotaKey(newQuotaInfo, utilfeature.DefaultFeatureGate.Enabled(features.ElasticQuotaEnableUpdateResourceKey)); err != nil {
 		return fmt.Errorf("failed to check sub and parent group quotaKey, err: %w", err)
 	}
@@ -196,6 +200,23 @@ func (qt *quotaTopology) checkParentQuotaInfo(quotaName, parentName string) erro
 		if !parentInfo.IsParent {
 			return fmt.Errorf("%v has parentName %v but the parentQuotaInfo's IsParent is false", quotaName, parentName)
 		}
+	}
+	return nil
+}
+
+// checkParentNotDescendant makes sure that following the parent links from the (new) parent reaches the root
+// without passing through the quota itself, i.e. the quota is not placed under itself or one of its descendants.
+func (qt *quotaTopology) checkParentNotDescendant(quotaName, parentName string) error {
+	cur := parentName
+	for steps := 0; cur != extension.RootQuotaName && cur != "" && steps <= len(qt.quotaInfoMap); steps++ {
+		if cur == quotaName {
+			return fmt.Errorf("%v has parentName %v which is the quota itself or one of its descendants", quotaName, parentName)
+		}
+		info, find := qt.quotaInfoMap[cur]
+		if !find {
+			break
+		}
+		cur = info.ParentName
 	}
 	return nil
 }
